@@ -413,7 +413,7 @@ def r12_no_borrowed_names(ctx):
     in core decodes a wire string as a borrowed &str (which serde can only do for escape-free text; such a request then
     fails to parse instead of being dispatched / answered -32601) (= C15.R7 over core)"""
     from . import c15
-    n = c15._borrowed_str_scan(ctx.F, ctx.R, r"^<?jsonrpsee_(types|core)::", "C13.R12")
+    n = c15._borrowed_str_scan(ctx.F, ctx.R, r"^<?jsonrpsee_(types|core|server)::", "C13.R12")
     ctx.R.ok("C13.R12", "no-borrowed-str", "%d deserialisation sites inspected" % n)
     ctx.R.floor("C13.R12", n, 40, "deserialisation sites in types/core")
 
